@@ -194,3 +194,161 @@ def all : List Def := [md5, sha256, sha512, sha1, sunmd5, des, desext, bcrypt, n
 def byName (n : String) : Option Def := all.find? (·.name = n)
 
 end GoCrypt.Scheme
+
+/-! ## Check / Params / NewHash -/
+
+namespace GoCrypt.Scheme
+open Bytes GoCrypt.Codec GoCrypt.Kdf
+
+inductive CheckRes where
+  | nil
+  | mismatch
+  | uerr (e : UErr)
+  | kerr (e : KeyErr)
+  | internal (what : String)
+  | tagerr
+  | panic
+  deriving Repr, DecidableEq
+
+def tiOf (S : Def) : Option TypeInfo := (typeInfoOf S.structs "scheme").toOption
+
+def fieldVal (ti : TypeInfo) (vals : Vals) (name : String) : FVal :=
+  let all := ti.hashPrefix.toList ++ ti.fields
+  match all.find? (·.name = name) with
+  | some f => (getVal vals f.index).getD (zeroOf f.kind f.ptrDepth)
+  | none => .other
+
+def fvBytes : FVal → Bytes
+  | .str s => s
+  | .bytes b => b
+  | _ => []
+
+def fvNat : FVal → Nat
+  | .uint n => n
+  | .int v => v.toNat
+  | _ => 0
+
+/-- How `Check`/`Params` turn the unmarshalled struct into `Key`'s arguments (with the implicit
+defaults: SHA-crypt rounds 0 → 5000, Argon2 version 0 → 0x10). `pw` is the password as passed to
+`Key` (NT hash: already UTF-16LE). -/
+def checkArgs (S : Def) (ti : TypeInfo) (vals : Vals) (pw : Bytes) (rand : Nat) : KeyArgs :=
+  let salt := fvBytes (fieldVal ti vals "Salt")
+  let pfx := fvBytes (fieldVal ti vals "HashPrefix")
+  match S.name with
+  | "md5" | "des" => { password := pw, salt := salt }
+  | "sha256" | "sha512" =>
+    let r := fvNat (fieldVal ti vals "Rounds")
+    { password := pw, salt := salt, rounds := if r = 0 then Gen.sha256.ImplicitRounds else r }
+  | "sha1" => { password := pw, salt := salt, rounds := fvNat (fieldVal ti vals "Rounds"), rand := rand }
+  | "desext" => { password := pw, salt := salt, rounds := fvNat (fieldVal ti vals "Rounds") }
+  | "sunmd5" =>
+    { password := pw, salt := salt, rounds := fvNat (fieldVal ti vals "Rounds"), optsNil := false, optPrefix := pfx,
+      optFlag := fieldVal ti vals "Separator" == .nilPtr }
+  | "bcrypt" => { password := pw, salt := salt, rounds := fvNat (fieldVal ti vals "Cost") % 256, optsNil := false, optPrefix := pfx }
+  | "nthash" => { password := utf16le pw }
+  | "argon2" =>
+    let v := fvNat (fieldVal ti vals "Version")
+    { password := pw, salt := salt, memory := fvNat (fieldVal ti vals "Memory"), rounds := fvNat (fieldVal ti vals "Time"),
+      threads := fvNat (fieldVal ti vals "Threads"), optsNil := false, optPrefix := pfx,
+      optVersion := if v = 0 then Gen.argon2.Version10 else v }
+  | _ => {}
+
+/-- `subtle.ConstantTimeCompare(a, b) == 1`: equal lengths and equal bytes. -/
+def ctEq (a b : Bytes) : Bool := a == b
+
+/-- `<scheme>.Check(hash, password)`. -/
+def check (S : Def) (h pw : Bytes) (rand : Nat := 0) : CheckRes :=
+  match tiOf S with
+  | none => .tagerr
+  | some ti =>
+    match unmarshal ti h with
+    | .error e => .uerr e
+    | .ok out =>
+      let vals := finalVals ti out
+      match key S (checkArgs S ti vals pw rand) with
+      | .err e => .kerr e
+      | .internal w => .internal w
+      | .panic => .panic
+      | .ok k => if ctEq (S.encodeSum k) (fvBytes (fieldVal ti vals "Sum")) then .nil else .mismatch
+
+/-- `<scheme>.Params(hash)` / `Salt(hash)`: the unmarshalled fields after the implicit defaults,
+as the arguments `Key` would receive (without a password). -/
+def params (S : Def) (h : Bytes) : Except UErr KeyArgs :=
+  match tiOf S with
+  | none => .error (.syntax 0 98)
+  | some ti =>
+    match unmarshal ti h with
+    | .error e => .error e
+    | .ok out => .ok (checkArgs S ti (finalVals ti out) [] 0)
+
+/-- `hashutil.Encoding.Rand(n)`: one entropy byte per symbol, masked to six bits. -/
+def randSymbols (alphabet : Bytes) (e : Bytes) : Bytes := e.map fun b => alphabet.getD (b.toNat % 64) 0
+
+structure NewHashReq where
+  password : Bytes
+  rounds : Nat := 0      -- rounds / cost / time
+  memory : Nat := 0
+  entropy : Bytes := []
+
+inductive NewHashRes where
+  | ok (hash : Bytes) (entropyUsed : Nat)
+  | kerr (e : KeyErr)
+  | internal (what : String)
+  | panic
+  deriving Repr, DecidableEq
+
+/-- `<scheme>.NewHash(password, cost…)` as a function of the entropy `crypto/rand` delivers. -/
+def newHash (S : Def) (r : NewHashReq) : NewHashRes :=
+  match tiOf S with
+  | none => .panic
+  | some ti =>
+    -- sha1 draws its random round count first
+    let (rounds, ent, used0) : Nat × Bytes × Nat :=
+      if S.name = "sha1" ∧ r.rounds = Gen.sha1.RandomRounds then
+        let w := (r.entropy.take 4).foldl (fun acc b => acc * 256 + b.toNat) 0
+        (Gen.sha1.randRounds w, r.entropy.drop 4, 4)
+      else (r.rounds, r.entropy, 0)
+    let (salt, used) : Bytes × Nat :=
+      match S.saltFromBytes with
+      | some n => (stdEncode S.saltAlphabet (ent.take n), used0 + n)
+      | none => (randSymbols hashAlphabet (ent.take S.saltSymbols), used0 + S.saltSymbols)
+    let pfx : Bytes := match S.name with
+      | "md5" => Gen.md5.Prefix | "sha256" => Gen.sha256.Prefix | "sha512" => Gen.sha512.Prefix | "sha1" => Gen.sha1.Prefix
+      | "sunmd5" => if rounds = 0 then Gen.sunmd5.PrefixZeroRounds else Gen.sunmd5.PrefixNonZeroRounds
+      | "des" => Gen.des.Prefix | "desext" => Gen.desext.Prefix | "bcrypt" => Gen.bcrypt.Prefix2b | "nthash" => Gen.nthash.Prefix
+      | "argon2" => Gen.argon2.Prefix2id | _ => []
+    let args : KeyArgs := match S.name with
+      | "md5" | "des" => { password := r.password, salt := salt }
+      | "sha256" | "sha512" | "sha1" | "desext" => { password := r.password, salt := salt, rounds := rounds }
+      | "sunmd5" => { password := r.password, salt := salt, rounds := rounds, optsNil := false, optPrefix := pfx, optFlag := rounds = 0 }
+      | "bcrypt" => { password := r.password, salt := salt, rounds := rounds, optsNil := false, optPrefix := pfx }
+      | "nthash" => { password := utf16le r.password }
+      | "argon2" => { password := r.password, salt := salt, memory := r.memory, rounds := rounds, threads := Gen.argon2.DefaultThreads,
+                      optsNil := false, optPrefix := pfx, optVersion := Gen.argon2.Version13 }
+      | _ => {}
+    let used := if S.name = "nthash" then 0 else used
+    let fields (sum : Bytes) : Vals := mkVals ti (
+      [("HashPrefix", FVal.str pfx), ("Salt", .bytes salt), ("Sum", .bytes sum)] ++
+      (match S.name with
+       | "sha256" | "sha512" | "sha1" | "desext" => [("Rounds", FVal.uint rounds)]
+       | "sunmd5" => [("Rounds", FVal.uint rounds), ("Separator", if rounds = 0 then FVal.nilPtr else FVal.str [])]
+       | "bcrypt" => [("Cost", FVal.uint rounds)]
+       | "argon2" => [("Version", FVal.uint Gen.argon2.Version13), ("Memory", .uint r.memory), ("Time", .uint rounds), ("Threads", .uint Gen.argon2.DefaultThreads)]
+       | _ => []))
+    match key S args with
+    | .ok k =>
+      (match marshal ti (fields (S.encodeSum k)) with
+       | .ok h => .ok h used
+       | .error _ => if S.name = "md5" ∨ S.name = "des" then .ok [] used else .internal "marshal")
+    | .err e =>
+      -- md5.NewHash and des.NewHash ignore Key's error: the digest stays zero-filled and Marshal's
+      -- error is ignored too, so the result is the empty string
+      if S.name = "md5" ∨ S.name = "des" then
+        (match marshal ti (fields (List.replicate (if S.name = "md5" then 22 else 11) 0)) with
+         | .ok h => .ok h used
+         | .error _ => .ok [] used)
+      else .kerr e
+    | .internal w => .internal w
+    | .panic => .panic
+
+end GoCrypt.Scheme
